@@ -396,6 +396,12 @@ def run(prog: Program, res: Result) -> None:  # noqa: PLR0912, PLR0915
     check_scope_stack_ownership(prog, res, "C10.R4")
     check_context_manager_pairing(prog, res, "C10.R4")
 
+    # ------------------------------------------------------------------ R5 a tag's arguments are resolved in the caller's scope
+    res.rule("C10.R5", "a name in a tag's own argument list resolves in the scope the tag was written in: no argument expression is evaluated inside the `with context.extend/loop(…)` block that pushes the tag's bindings (a keyword argument would otherwise shadow the caller's variable inside the same argument list; shared with C07.R10)")
+    from checks.shared import check_arguments_before_bindings
+
+    check_arguments_before_bindings(prog, res, "C10.R5")
+
 
 def _param_or_empty_default(e: ast.AST, param: str) -> bool:
     """`param`, `param or {}`, `param if <test on param> else {}` (and the mirrored IfExp): the parameter itself whenever one was passed."""
